@@ -277,6 +277,13 @@ CE_CASE(s16, std::uint16_t, 15, 0x8000)
 CE_CASE(s16, std::uint16_t, 15, 0x7fff)
 CE_CASE(s32, std::uint32_t, 30, 0x40000000u)
 CE_CASE(s32, std::uint32_t, 30, 0xbfffffffu)
+CE_CASE(s32, std::uint32_t, 31, 0x80000000u)
+CE_CASE(s32, std::uint32_t, 31, 0x7fffffffu)
+CE_CASE(s64, std::uint64_t, 31, 0x80000000ull)
+CE_CASE(s64, std::uint64_t, 31, 0xffffffff7fffffffull)
+CE_CASE(s64, std::uint64_t, 32, 0x100000000ull)
+CE_CASE(s64, std::uint64_t, 63, 0x8000000000000000ull)
+CE_CASE(s64, std::uint64_t, 63, 0x7fffffffffffffffull)
 #    define CE_SET(SET_, U_, I, V, B)                                                                                        \
         constexpr U_ ce_##SET_##_##I##_##B()                                                                                 \
         {                                                                                                                    \
@@ -291,8 +298,15 @@ CE_SET(s16, std::uint16_t, 15, 0x5555, true)
 CE_SET(s16, std::uint16_t, 15, 0xffff, false)
 CE_SET(s32, std::uint32_t, 30, 0x15555555u, true)
 CE_SET(s32, std::uint32_t, 30, 0xffffffffu, false)
+CE_SET(s32, std::uint32_t, 31, 0x55555555u, true)
+CE_SET(s32, std::uint32_t, 31, 0xffffffffu, false)
+CE_SET(s64, std::uint64_t, 31, 0x5555555555555555ull, true)
+CE_SET(s64, std::uint64_t, 31, 0xffffffffffffffffull, false)
+CE_SET(s64, std::uint64_t, 40, 0, true)
+CE_SET(s64, std::uint64_t, 63, 0x5555555555555555ull, true)
+CE_SET(s64, std::uint64_t, 63, 0xffffffffffffffffull, false)
 } // namespace ce
-#    define CE_COUNT 30
+#    define CE_COUNT 62
 #else
 #    define CE_COUNT 0
 #endif
